@@ -71,7 +71,7 @@ def run_harness(binp, cases, nproc):
         w = os.path.join(ROOT, "work", "C24", "run%d" % i)
         os.makedirs(w, exist_ok=True)
         outs[i] = rust.run(binp, input="\n".join(json.dumps(c) for c in shards[i]) + "\n",
-                           env={"C24_WORK": w, "C24_QUIET_MS": "5000"}, timeout=2400)
+                           env={"C24_WORK": w, "C24_QUIET_MS": "5000"}, timeout=5000)
     ths = [threading.Thread(target=work, args=(i,)) for i in range(nproc)]
     for t in ths: t.start()
     for t in ths: t.join()
@@ -98,7 +98,7 @@ def run(ctx):
     if binp is None:
         ctx.violation("harness-build", {"log": bout[-4000:]}, "harness c24 does not build against /repo", no_input=True)
         return
-    nrand = 70 if ctx.quick else 2500
+    nrand = 70 if ctx.quick else 600
     maxev = 6 if ctx.quick else 12
     cases = []
     for n, (key, evs, script) in enumerate(SCRIPTS):
